@@ -32,7 +32,8 @@ func init() {
 		Rule: "case = one chain with harness-generated self-signed certificates (ECDSA P-256; RSA-2048 in every 4th case), 3 valid records (address, 64-hex reference id, payload hash) stored through the real message server (PublishReferencePayloadLink + StoreSignature, storage keys from the module's own queries) and ~12 single-field mutations each stored as its own record " +
 			"(signature byte flipped, signed over another address / reference id / payload link, algorithm of the other family or unknown, certificate of another key, garbage PEM, non-base64 signature, missing link). Oracle: independent verification (crypto/ecdsa.VerifyASN1 / rsa.VerifyPKCS1v15 over sha256(hex(sha256(addr:refId:link))) with the key parsed from the stored PEM) decides the expected answer of VerifySignature; " +
 			"a valid answer must return signature, algorithm, certificate and timestamp equal to the stored object (read back from the raw store). Write-once: after every message, including re-publishes of the same key with other / empty values before and after a commit, every link first stored under a key is still there unchanged and the overwriting publish was refused. " +
-			"Non-trivial: >=1 record verified valid before its mutations and >=1 overwrite attempt refused. Distinct by generated keys/ids.",
+			"Non-trivial: >=1 record verified valid before its mutations and >=1 overwrite attempt refused. Distinct by generated keys/ids." +
+			" Also: long links (150-3000 characters), certificate bundles, differently named algorithms, the upper-case spelling of an address used consistently, RSA signatures with a leading zero byte.",
 		Assumptions:   []string{"the signature module's message service is not registered on this tree; its real message server is driven on a branched deliver-state context (see DESIGN.md §1.3)", "key generation uses crypto/rand: byte-level inputs differ between runs, verdicts do not"},
 		Cases:         func(t string) int { return tierN(t, 192, 4000) },
 		MinNontrivial: func(t string) int { return tierN(t, 40, 2000) },
